@@ -110,6 +110,11 @@ fn build(c: &'static Coin, case: &Case) -> ChainBuilder {
                 txs.insert(0, coinbase(h, 78, vec![pay(5, reward.saturating_sub(10))]));
             }
         }
+        // a transaction need not have outputs (its inputs and its size count all the same): three inputs, none out, larger than
+        // every other transaction of the chain
+        if case.label == "transactions without outputs" {
+            txs.push(Tx { version: 1, segwit: false, inputs: (0..3u32).map(|k| { let mut t = TxIn::spend([0xd0 + i as u8; 32], k); t.script_sig = vec![0x51; 60]; t }).collect(), outputs: vec![], locktime: 0, wide: 0 });
+        }
         if case.types_world && i == 0 {
             let scripts = representatives(c, true);
             for (k, chunk) in scripts.chunks(5).enumerate() {
@@ -182,6 +187,7 @@ pub fn run() -> Report {
         cases.push(Case { coin: cn, base: 0, times: vec![1000, 2000, 1500], mix: 1, cb_delta: 7, types_world: true, label: "every script type" });
         for mix in [0u8, 1, 2] {
             cases.push(Case { coin: cn, base: 0, times: vec![1000, 1600, 2200, 2800], mix, cb_delta: 720, types_world: false, label: "several coinbase-shaped transactions in a block" });
+            cases.push(Case { coin: cn, base: 0, times: vec![1000, 1600, 2200], mix, cb_delta: 5, types_world: false, label: "transactions without outputs" });
         }
         for n in [2usize, 3, 5, 6, 11] {
             for mix in [0u8, 1, 4] {
